@@ -795,7 +795,9 @@ def face_plane_truth(fx_, pl, scale):
     foot = (a_ * c_ / ab, b_ * c_ / ab)
     dr = (-b_, a_)
     drn = fsq(hx.n2(dr))
-    margin = F(TOL * scale * 100)
+    # (three times the length below which intervals_of discards a returned piece: a cut piece
+    # or a gap shorter than that is neither demanded nor forbidden)
+    margin = F(TOL * scale * 3000)
     ts = []
     for loop in [fx_.b2] + fx_.h2:
         m = len(loop)
